@@ -1092,6 +1092,11 @@ def run(tier, seed):
     n_seq = 250 if tier == "quick" else 4000
     rng_seq = random.Random("%s/%s" % (SEQ_LEG, seed))    # own stream: leg (a)/(b) cases stay as they were
     run_seq_cases(rep, [gen_seq_case(rng_seq, k) for k in range(n_seq)])
+    # ---- (d) visibility through a CubeSet (after seeded change C09-8: the cube that augment_response
+    # rebuilds for a short single-column filter cube lost its transforms, so hidden rows and the zero rows
+    # added by the augmentation were displayed in that column only): every partition of the set shows
+    # exactly the rows the full-shape cube of the filtered survey shows under the same transforms
+    run_set_cases(rep, seed, 24 if tier == "quick" else 300)
     rep.cov["rule"] = (
         "cases from random.Random(seed): CAT/MR x CAT/MR slices, CA slices, CAT/MR strands of 1..6 "
         "elements; surveys of 0..40 respondents, 70% weighted with dyadic weights incl. 0, with dead "
@@ -1163,6 +1168,34 @@ def _collator_trusted_base():
         return "collator translator harness/translate/x_collator.py not importable"
 
 
+SET_LEG = "cube-set-visibility"
+SET_VIS = ("row_labels", "row_order", "row_codes", "row_aliases", "shape", "is_empty", "row_count",
+           "payload_order", "inserted_row_idxs", "rows_dimension_fills")
+
+
+def set_case_fails(case):
+    from harness.props import c06
+    return [f for f in c06.check_augment(case)
+            if str(f.get("attr", "")).split("(")[0] in SET_VIS
+            or f.get("what") in ("exception", "n_partition_sets")]
+
+
+def run_set_cases(rep, seed, n):
+    from harness.props import c06
+    rng = random.Random(seed + 77)
+    for k in range(n):
+        case = c06.gen_augment(rng, 2 * k)          # even k: never prune-only; row transforms on
+        case["row_transforms"] = True
+        case["leg"] = SET_LEG
+        rcase = {kk: vv for kk, vv in case.items() if not kk.startswith("_")}
+        fails = set_case_fails(case)
+        rep.count_case(rcase, True)
+        rep.dist("cube-set-visibility:augment")
+        for f in fails[:2]:
+            rep.violation("impl-vs-property", rcase, dict(f, what="cube-set:" + str(f.get("what"))),
+                          {"what": "cube-set-visibility", "oracle": "full-shape cube under the same transforms"})
+
+
 def replay(path):
     d = json.load(open(path))
     if d["violation"].get("kind") in core.OBLIGATION_KINDS:  # a broken obligation, no input to re-run
@@ -1170,6 +1203,13 @@ def replay(path):
     case = d["violation"]["case"]
     rep = core.Report(PID, "quick", d.get("seed", 0))
     rep.findings = []
+    if case.get("leg") == SET_LEG:
+        fails = set_case_fails(case)
+        for f in fails[:5]:
+            print("REPLAY still fails:", json.dumps(core.jsonable(f))[:700])
+        if not fails:
+            print("REPLAY: no longer fails")
+        return 1 if fails else 0
     if case.get("leg") == SEQ_LEG:
         run_seq_cases(rep, [case])
     else:
